@@ -346,6 +346,9 @@ def oracle_c07(snap, case, stage):
             continue
         counters["nodes_compared"] += 1
         expected = expect[declared]
+        if spec is None and declared == "tutorial3.no_remote" and ".vm1.qemu_kvm_centos." not in node["cls"]:
+            # the shipped config declares the connect dependency of vm1 only for its CentOS variant
+            expected = dict(expected, vm1=["internal.automated.customize"])
         real = collections.defaultdict(list)
         for ref, objs in node["setup"]:
             parent = by_i.get(ref)
